@@ -731,3 +731,9 @@ func mustJSON(v interface{}) json.RawMessage {
 	b, _ := json.Marshal(v)
 	return b
 }
+
+// SchedConfig is schedConfig for worlds that live in other packages (cmd/hidi).
+func SchedConfig(seed uint64, rng *simrt.Rng) (simrt.Config, string) { return schedConfig(seed, rng) }
+
+// NotePending is notePending for worlds that live in other packages.
+func NotePending(v *Vio, rp *Replay) { notePending(v, rp) }
